@@ -34,6 +34,8 @@ def run(check: Check, repo: Repo, tier: str) -> None:
     T.cm_no_swallow(check, repo, repo.package_modules('execution') + repo.package_modules('pyutils'))
     T.stream_disabled(check, repo)
     X.twin_handlers(check, repo, [repo.mod("execution.execute")])
+    X.scope_threading(check, repo, [repo.mod("execution.execute"), repo.mod("execution.values")])
+    X.option_independent(check, repo)
     check.floors = {k: v for k, v in check.floors.items() if k != "TWIN-HANDLERS"}
     check.floor("TWIN-HANDLERS", 1, "twins in execute.py")
     from rules import type_witness as TW
